@@ -471,7 +471,7 @@ def corrupt_render(lines, pid):
     return None
 
 
-_pipe_family("pipe_render", "render,render2", "layout,render", 100, 600, "dagre")
+_pipe_family("pipe_render", "render,render2,render3", "layout,render", 100, 600, "dagre")
 FAMILIES["pipe_render"]["corrupt"] = corrupt_render
 _gen_render = ("mode render: 1-5 objects, all shapes, containers, styles, explicit sizes, icons, markdown, near constants, classes, tooltips and links; names, labels, tooltips and links carry XML metacharacters, quotes, "
                "control characters and the marker ZQXJ inside attribute-breaking and element-injecting payloads; dagre; per diagram 2 exports (a random catalog theme and one of the special-rule themes 300/301/303) and 3 renders "
